@@ -1327,7 +1327,7 @@ def pattern_instances(rng, name, n=3):
     return sorted({c for c in out if c != name})
 
 
-FOREIGN_KIND = "hostile"     # -> "other" once fixes/R5C-foreign-file-in-report-dir-crashes-load.diff is in /repo (the only line to change)
+FOREIGN_KIND = "other"       # was "hostile" until fix 0d2e8ed (D48, fixes/R5C-foreign-file-in-report-dir-crashes-load.diff) was in /repo
 DIR_EXTRAS = {          # other legitimate content of a report directory; none of it is a report
     "attachments": "subdir", "report.html": "other", "notes.txt": "other", ".lock": "other", "report.js.4242.tmp": "other",
     "empty": "other", "screenshots": "subdir",
